@@ -2,10 +2,19 @@
 from vlib import spaces
 
 
+def cls_alphabet():
+    """one representative per code-point class of the CURRENT rule set (a rule change that makes
+    the lexer distinguish a new character brings that character into the alphabet)"""
+    from sqlparse import keywords
+    from vlib import charclass
+    one, two, info = charclass.representatives([rx for rx, _ in keywords.SQL_REGEX])
+    return one
+
+
 def parse_spaces(tier, focus=()):
     """focus: driver names that get one more fragment of depth for this property."""
     U, D = spaces.U, spaces.D
-    sp = []
+    sp = [('SPC<=3 raw', spaces.SPC, 3, ''), ('CLS<=3 raw', cls_alphabet(), 3, '')]
     if tier == 'quick':
         sp += [('U<=3 raw', U, 3, ''), ('U<=3 blank', U, 3, ' ')]
         for name in sorted(D):
